@@ -24,25 +24,28 @@ Definition L_MPS2 : N := 9.
 Definition n_layouts : N := 10.
 
 Definition is_pinyin (L : N) : bool := (L_HANYU <=? L) && (L <=? L_MPS2).
-Definition pinyin_variant (L : N) : N := L - L_HANYU.
 
 Definition lift_syl (o : outcome (N * behavior)) : outcome (lstate * behavior) :=
   obind o (fun r => Ok (syl_state (fst r), snd r)).
 
 Definition PANIC_NO_LAYOUT : N := 299.   (* not a layout number: no Rust counterpart *)
 
-(* SyllableEditor::key_press *)
+(* SyllableEditor::key_press (the match is on the layout numbers defined above) *)
 Definition key_press (L : N) (st : lstate) (ev : key_event) : outcome (lstate * behavior) :=
   let v := ls_syl st in
-  if L =? L_STANDARD then lift_syl (std_key_press standard_table v (ev_index ev))
-  else if L =? L_HSU then lift_syl (hsu_key_press v (ev_code ev))
-  else if L =? L_IBM then lift_syl (std_key_press ibm_table v (ev_index ev))
-  else if L =? L_GINYIEH then lift_syl (std_key_press ginyieh_table v (ev_index ev))
-  else if L =? L_ET then lift_syl (std_key_press et_table v (ev_index ev))
-  else if L =? L_ET26 then lift_syl (et26_key_press v (ev_code ev))
-  else if L =? L_DC26 then lift_syl (dc26_key_press v (ev_index ev))
-  else if is_pinyin L then pinyin_key_press (pinyin_variant L) st ev
-  else Panic PANIC_NO_LAYOUT.
+  match L with
+  | 0 => lift_syl (std_key_press standard_table v (ev_index ev))
+  | 1 => lift_syl (hsu_key_press v (ev_code ev))
+  | 2 => lift_syl (std_key_press ibm_table v (ev_index ev))
+  | 3 => lift_syl (std_key_press ginyieh_table v (ev_index ev))
+  | 4 => lift_syl (std_key_press et_table v (ev_index ev))
+  | 5 => lift_syl (et26_key_press v (ev_code ev))
+  | 6 => lift_syl (dc26_key_press v (ev_index ev))
+  | 7 => pinyin_key_press V_HANYU st ev
+  | 8 => pinyin_key_press V_THL st ev
+  | 9 => pinyin_key_press V_MPS2 st ev
+  | _ => Panic PANIC_NO_LAYOUT
+  end.
 
 Definition l_is_empty (L : N) (st : lstate) : bool :=
   if is_pinyin L then pinyin_is_empty st else is_empty (ls_syl st).
@@ -122,27 +125,34 @@ Fixpoint run_editor (L : N) (st : lstate) (ops : list lop) : outcome (lstate * l
         Ok (fst r', opt_list (snd r) ++ snd r')))
   end.
 
-(* ---- typing ASCII text through a keyboard (what chewing_handle_Default does) ---- *)
-Fixpoint map_ascii_all (kb : N) (bytes : list N) : outcome (list key_event) :=
+(* ---- typing through a keyboard (what chewing_handle_Default / chewing_handle_Backspace do) ----
+   a typed text is a list of bytes: a printable ASCII character is mapped to a key
+   event by the keyboard's map_ascii and pressed (key_press, the Standard lookup
+   strategy); byte 8 is the Backspace key, which the editor turns into remove_last *)
+Definition BACKSPACE : N := 8.
+Fixpoint type_ops (kb : N) (bytes : list N) : outcome (list lop) :=
   match bytes with
   | [] => Ok []
-  | c :: bs => obind (map_ascii kb c) (fun ev => obind (map_ascii_all kb bs) (fun evs => Ok (ev :: evs)))
+  | c :: bs =>
+      obind (if c =? BACKSPACE then Ok OpRemoveLast else obind (map_ascii kb c) (fun ev => Ok (OpKey ev))) (fun op =>
+      obind (type_ops kb bs) (fun ops => Ok (op :: ops)))
   end.
 
 Definition is_printable_ascii (c : N) : bool := (32 <=? c) && (c <=? 126).
+Definition is_typable (c : N) : bool := is_printable_ascii c || (c =? BACKSPACE).
 
 (* typing `bytes` on keyboard kb into an empty layout L makes the editor receive
    exactly one syllable s, at the last key, by Commit, and s is the reading r
    itself or (compact layouts) a syllable of the dictionary whose alt_syllables
    contain r *)
 Definition enters_b (dict_readings : list N) (kb L : N) (bytes : list N) (r : N) : bool :=
-  forallb is_printable_ascii bytes &&
-  match map_ascii_all kb bytes with
-  | Ok evs =>
-    match run_editor L lstate_empty (map OpKey evs) with
+  forallb is_typable bytes &&
+  match type_ops kb bytes with
+  | Ok ops =>
+    match run_editor L lstate_empty ops with
     | Ok (st, [s]) =>
         l_is_empty L st &&
-        match run_editor L lstate_empty (map OpKey (removelast evs)) with
+        match run_editor L lstate_empty (removelast ops) with
         | Ok (_, []) => true
         | _ => false
         end &&
